@@ -9,6 +9,7 @@ import RtenVerif.Model.ByteBpe
   → `ok` | `err:invalid-merge` | `err:missing-vocab`.
 * `E;<srclen>;<normalized text bytes b.b>;<pieces s-e,…>;<map: - | m<o.o…>>;<src: - | s<b.b…>>`
   → `i=<ids>;o=<token offsets>;d=<ok:bytes|err:id|err:utf8|panic>;s=<slice per token: none|b:bytes>`.
+* `D;<ids ,>` (decode an arbitrary id sequence) → `d=<ok:bytes|err:id|err:utf8|panic>`.
 -/
 namespace RtenVerif.Driver.C27
 open RtenVerif.Driver RtenVerif.ByteBpe
@@ -38,35 +39,10 @@ def parseRange (w : String) : Option (Nat × Nat) :=
   | [a, b] => do pure (← a.toNat?, ← b.toNat?)
   | _ => none
 
-/-- `String::from_utf8` validity (Unicode Table 3-7, well-formed UTF-8 byte sequences). -/
-def validUtf8 : List Nat → Bool
-  | [] => true
-  | b0 :: rest =>
-    let cont (b : Nat) := 0x80 ≤ b && b ≤ 0xBF
-    if b0 < 0x80 then validUtf8 rest
-    else if 0xC2 ≤ b0 && b0 ≤ 0xDF then
-      match rest with
-      | b1 :: r => cont b1 && validUtf8 r
-      | _ => false
-    else if 0xE0 ≤ b0 && b0 ≤ 0xEF then
-      match rest with
-      | b1 :: b2 :: r =>
-        let lo := if b0 == 0xE0 then 0xA0 else 0x80
-        let hi := if b0 == 0xED then 0x9F else 0xBF
-        lo ≤ b1 && b1 ≤ hi && cont b2 && validUtf8 r
-      | _ => false
-    else if 0xF0 ≤ b0 && b0 ≤ 0xF4 then
-      match rest with
-      | b1 :: b2 :: b3 :: r =>
-        let lo := if b0 == 0xF0 then 0x90 else 0x80
-        let hi := if b0 == 0xF4 then 0x8F else 0xBF
-        lo ≤ b1 && b1 ≤ hi && cont b2 && cont b3 && validUtf8 r
-      | _ => false
-    else false
-
-def showDecode (r : DecodeResult) : String :=
+def showDecode (r : DecodeOut) : String :=
   match r with
-  | .ok bs => if validUtf8 bs then "ok:" ++ showNats "." bs else "err:utf8"
+  | .ok bs => "ok:" ++ showNats "." bs
+  | .invalidUtf8 => "err:utf8"
   | .invalidId => "err:id"
   | .panic => "panic"
 
@@ -82,7 +58,7 @@ def handleE (t : Bpe) (srclen text pieces map src : String) : Option String := d
     let slices := (tokenTexts srcBytes offs).map fun
       | some bs => "b:" ++ showNats "." bs
       | none => "none"
-    pure s!"i={showNats "," ids};o={showNats "," offs};d={showDecode (decodeIds t ids)};s={joinWith "," slices}"
+    pure s!"i={showNats "," ids};o={showNats "," offs};d={showDecode (decode t ids)};s={joinWith "," slices}"
 
 def step (st : Option Bpe) (line : String) : Option Bpe × String :=
   match line.splitOn ";" with
@@ -99,6 +75,11 @@ def step (st : Option Bpe) (line : String) : Option Bpe × String :=
     | some .invalidMerge => (none, "err:invalid-merge")
     | some .missingVocab => (none, "err:missing-vocab")
     | none => (none, "bad-request")
+  | ["D", ids] =>
+    match st, parseNatList "," ids with
+    | some t, some l => (st, "d=" ++ showDecode (decode t l))
+    | none, _ => (st, "no-tokenizer")
+    | _, none => (st, "bad-request")
   | ["E", srclen, text, pieces, map, src] =>
     match st with
     | none => (st, "no-tokenizer")
